@@ -305,6 +305,39 @@ func c04Fold(c *Ctx, rule string, t *types.Named, adj *ssa.Function, cnt []strin
 			}
 		}
 	}
+	// the same transfer in one pass: the summing loop itself zeroes the very element it has just added
+	inPlace := false
+	if rFrom == nil {
+		for _, l := range countingLoops(c.P, adj) {
+			var summed, zeroed *Term
+			for b := range l.Blocks {
+				for _, in := range b.Instrs {
+					switch in := in.(type) {
+					case *ssa.BinOp:
+						if in.Op.String() == "+" && isFloat(in.Type()) {
+							for _, v := range []ssa.Value{in.X, in.Y} {
+								if e := tc.Of(v); e.Op == "index" {
+									summed = e
+								}
+							}
+						}
+					case *ssa.Store:
+						if at := tc.Of(in.Addr); at.Op == "index" && tc.Of(in.Val).isConst("0") {
+							zeroed = at
+						}
+					}
+				}
+			}
+			if summed != nil && zeroed != nil && summed.Key() == zeroed.Key() {
+				inPlace = true
+			}
+		}
+	}
+	if inPlace && sumFirst != nil {
+		c.R.check(edgeAdd, rule, tname+".adjust/fold-range", shortFn(adj), c.fpos(adj), "the bins summed into the edge bin are exactly the bins that are then reset (here: each summed element is zeroed in the same pass)", fmt.Sprintf("summed and zeroed in place; edge += sum: %v", edgeAdd))
+		c.R.check(single, rule, tname+".adjust/single-bucket", shortFn(adj), c.fpos(adj), "when only one bucket remains it receives the whole cached total", "")
+		return
+	}
 	ok := sumFirst != nil && rFrom != nil
 	found := "no fold loop / reset call found"
 	if ok {
